@@ -144,7 +144,9 @@ func main() {
 	if r.Thorough() {
 		geos = append(geos, geo{96, 1}, geo{192, 2})
 	}
-	opts := []cuworld.TimingOpts{{Scoreboard: false, Resident: 1, Delays: []int{7, 50}, NoAddrAttribution: true}}
+	opts := []cuworld.TimingOpts{{Scoreboard: false, Resident: 1, Delays: []int{7, 50}, NoAddrAttribution: true},
+		// the mi300a platform's compute-unit parameters (coalescing penalty, deeper and wider memory pipelines, scoreboard)
+		{Scoreboard: true, Resident: 1, Delays: []int{7, 50}, NoAddrAttribution: true, MI300AKnobs: true}}
 	if r.Thorough() {
 		opts = append(opts, cuworld.TimingOpts{Scoreboard: true, Resident: 2, Delays: []int{7, 50}, NoAddrAttribution: true})
 	}
@@ -160,6 +162,9 @@ func main() {
 			k.Name = "empty"
 		}
 		name := fmt.Sprintf("%s/wg%dx%d/sb=%v/res%d", k.Name, g.WGSize, g.NumWG, o.Scoreboard, o.Resident)
+		if o.MI300AKnobs {
+			name += "/mi300a-knobs"
+		}
 		if o.SlowScalar+o.SlowVector+o.SlowInst > 0 {
 			name += fmt.Sprintf("/slow-memory(s%d,v%d,i%d)", o.SlowScalar, o.SlowVector, o.SlowInst)
 		}
